@@ -5,7 +5,8 @@
 (*                                                                                        *)
 (* Schema: t(id, g, v).  id is the sharding key (a non-negative integer), g is a nullable  *)
 (* string column, v is a nullable value column whose type is a configuration dimension:    *)
-(* numeric (DECIMAL or DOUBLE on the backend) or string (VARCHAR).                         *)
+(* numeric (DECIMAL or DOUBLE on the backend), string (VARCHAR), or BIGINT with values of   *)
+(* extreme magnitude (represented by rank, like strings).                                 *)
 (*                                                                                        *)
 (* Every SQL value is a TLC integer:                                                       *)
 (*   NULL            the reserved integer NULL (smaller than every other value, which is   *)
@@ -53,6 +54,10 @@ NULL == -99999
 StrU == <<"", "+b", "NULL", "a", "a+", "b">>          \* byte order; value = index
 NumU == <<NULL, -10, 0, 10, 15>>                       \* tenths
 StrV == <<NULL, 1, 2, 3, 4, 5, 6>>                     \* NULL and the six string ranks
+\* BIGINT values far apart (their pairwise differences do not fit 64 bits), by rank like the strings: the
+\* specification only needs their order, never their sum (SUM is not generated on such a column)
+BigU == <<"-9000000000000000000", "-7", "0", "7", "9000000000000000000">>
+BigV == <<NULL, 1, 2, 3, 4, 5>>
 NIds == 8                                              \* ids 0..7
 
 Cols == <<"id", "g", "v">>
@@ -90,7 +95,7 @@ Flatten(ss) == IF ss = <<>> THEN <<>> ELSE Head(ss) \o Flatten(Tail(ss))
 (***************************************************************************************)
 Layouts == << <<2>>, <<1, 1>>, <<3>>, <<2, 1>>, <<4>>, <<2, 2>>, <<1, 3>> >>
 RuleTypes == <<"mod", "hash", "range">>
-VTypes == <<"decimal", "double", "varchar">>
+VTypes == <<"decimal", "double", "varchar", "bigint">>
 NCfg == Len(Layouts) * Len(RuleTypes) * Len(VTypes)
 NTables(lay) == SumSeq(lay)
 Cfg(i) == LET k == i - 1
@@ -109,7 +114,9 @@ Place(cfg, idTenths) == LET k == idTenths \div 10 IN
 (***************************************************************************************)
 (* WHERE: at most two leaves joined by AND / OR; three-valued logic                     *)
 (***************************************************************************************)
-Leaf(col, op, x) == [c |-> col, op |-> op, x |-> x]
+Leaf(col, op, x) == [c |-> col, op |-> op, x |-> x, y |-> 0]
+\* two-operand leaves: col [NOT] IN (x, y), col [NOT] BETWEEN x AND y  (operands are never NULL)
+Leaf2(col, op, x, y) == [c |-> col, op |-> op, x |-> x, y |-> y]
 NoLeaf == Leaf("id", "=", 0)
 W0 == [j |-> "none", a |-> NoLeaf, b |-> NoLeaf]
 W1(l) == [j |-> "one", a |-> l, b |-> NoLeaf]
@@ -120,6 +127,10 @@ LeafVal(l, row) ==
     LET x == row[ColIdx(l.c)] IN
     CASE l.op = "isnull"  -> IF x = NULL THEN "T" ELSE "F"
       [] l.op = "notnull" -> IF x = NULL THEN "F" ELSE "T"
+      [] l.op = "in"         -> IF x = NULL THEN "U" ELSE IF x = l.x \/ x = l.y THEN "T" ELSE "F"
+      [] l.op = "notin"      -> IF x = NULL THEN "U" ELSE IF x = l.x \/ x = l.y THEN "F" ELSE "T"
+      [] l.op = "between"    -> IF x = NULL THEN "U" ELSE IF l.x <= x /\ x <= l.y THEN "T" ELSE "F"
+      [] l.op = "notbetween" -> IF x = NULL THEN "U" ELSE IF l.x <= x /\ x <= l.y THEN "F" ELSE "T"
       [] OTHER -> IF x = NULL \/ l.x = NULL THEN "U"
                   ELSE IF (CASE l.op = "="  -> x = l.x
                              [] l.op = "<>" -> x # l.x
@@ -288,7 +299,7 @@ SameAnswer(A, B) == /\ SameBag([i \in DOMAIN A.pool |-> <<A.pool[i], A.cls[i]>>]
 
 (***************************************************************************************)
 (* UPDATE / DELETE / INSERT .. ON DUPLICATE KEY UPDATE                                  *)
-(*   q = [kind, set, where, row];  set = sequence of [c, x]                              *)
+(*   q = [kind, set, where, ins];  set = sequence of [c, x]; ins = rows to insert         *)
 (***************************************************************************************)
 Assign(col, x) == [c |-> col, x |-> x]
 Apply(set, r) == [ci \in 1..3 |-> IF \E k \in DOMAIN set : ColIdx(set[k].c) = ci
@@ -300,12 +311,12 @@ Rejected(q) == q.kind \in {"update", "insdup"} /\ \E k \in DOMAIN q.set : q.set[
 Effect(q, rows) ==
     CASE q.kind = "delete" -> SelectSeq(rows, LAMBDA r : ~Matches(q.where, r))
       [] q.kind = "update" -> [i \in DOMAIN rows |-> IF Matches(q.where, rows[i]) THEN Apply(q.set, rows[i]) ELSE rows[i]]
-      [] q.kind = "insdup" -> Append(rows, q.row)     \* no unique key in the schema: never a duplicate
+      [] q.kind = "insdup" -> rows \o q.ins          \* no unique key in the schema: never a duplicate
 \* MySQL reports the rows actually changed (a matched row whose new values equal the old ones is not counted)
 Affected(q, rows) ==
     CASE q.kind = "delete" -> Len(Filter(q.where, rows))
       [] q.kind = "update" -> Cardinality({i \in DOMAIN rows : Matches(q.where, rows[i]) /\ Apply(q.set, rows[i]) # rows[i]})
-      [] q.kind = "insdup" -> 1
+      [] q.kind = "insdup" -> Len(q.ins)
 
 TableRows(cfg, rows, t) == SelectSeq(rows, LAMBDA r : Place(cfg, r[1]) = t)
 Sharded(cfg, rows) == [t \in 1..cfg.nt |-> TableRows(cfg, rows, t - 1)]
@@ -322,8 +333,13 @@ C05Holds(q, cfg, rows, accepted, tables, n) ==
 (***************************************************************************************)
 (* Query grammar: finite catalogues indexed by small integers                          *)
 (***************************************************************************************)
+\* value universe of column v by physical type
+VU(vt) == CASE vt = "varchar" -> StrV [] vt = "bigint" -> BigV [] OTHER -> NumU
+
 \* literals for column v by physical type: (numeric, string rank)
-VLit(vt, k) == IF vt = "varchar" THEN <<4, 5, 2, 3, 6>>[k] ELSE <<0, 10, -10, 15, 5>>[k]
+VLit(vt, k) == CASE vt = "varchar" -> <<4, 5, 2, 3, 6>>[k]
+                 [] vt = "bigint" -> <<3, 4, 2, 5, 1>>[k]
+                 [] OTHER -> <<0, 10, -10, 15, 5>>[k]
 
 Wheres(vt) == <<
     W0,
@@ -338,8 +354,16 @@ Wheres(vt) == <<
     WOr(Leaf("g", "isnull", 0), Leaf("g", "=", 3)), WAnd(Leaf("id", ">=", 20), Leaf("v", ">", VLit(vt, 1))),
     WOr(Leaf("id", "=", 0), Leaf("g", "=", 4)), WAnd(Leaf("g", "notnull", 0), Leaf("v", "isnull", 0)),
     WOr(Leaf("id", "<", 20), Leaf("id", ">", 50)), WAnd(Leaf("id", ">", 10), Leaf("id", "<=", 50)),
-    WOr(Leaf("g", "<>", 5), Leaf("v", "<=", VLit(vt, 3))), WAnd(Leaf("id", "=", 30), Leaf("g", "<>", 1)) >>
-NWhere == 34
+    WOr(Leaf("g", "<>", 5), Leaf("v", "<=", VLit(vt, 3))), WAnd(Leaf("id", "=", 30), Leaf("g", "<>", 1)),
+    W1(Leaf2("id", "in", 0, 30)), W1(Leaf2("id", "notin", 10, 20)), W1(Leaf2("id", "between", 10, 50)),
+    W1(Leaf2("id", "notbetween", 20, 40)), W1(Leaf2("g", "in", 3, 4)), W1(Leaf2("g", "notin", 1, 5)),
+    W1(Leaf2("v", "between", VLit(vt, 3), VLit(vt, 1))), W1(Leaf2("v", "notin", VLit(vt, 1), VLit(vt, 2))),
+    \* a route with a gap on one side of OR and a route inside the gap on the other, both ways round
+    WOr(Leaf("id", "=", 10), Leaf2("id", "in", 0, 30)), WOr(Leaf2("id", "in", 0, 30), Leaf("id", "=", 20)),
+    WOr(Leaf("id", "=", 30), Leaf2("id", "notbetween", 20, 50)), WOr(Leaf2("id", "in", 10, 60), Leaf2("id", "in", 20, 50)),
+    WAnd(Leaf2("id", "between", 10, 60), Leaf("g", "notnull", 0)), WAnd(Leaf2("id", "in", 20, 50), Leaf2("id", "notin", 20, 30)),
+    WOr(Leaf2("g", "in", 3, 4), Leaf("v", "isnull", 0)), WAnd(Leaf2("id", "notbetween", 30, 40), Leaf("v", "notnull", 0)) >>
+NWhere == 50
 
 SelPlain == << <<Col("id"), Col("g"), Col("v")>>, <<Col("g")>>, <<Col("v")>>, <<Col("g"), Col("v")>>,
                <<Col("id")>>, <<Col("v"), Col("g")>>, <<Col("id"), Col("g")>>, <<Col("v"), Col("id")>> >>
@@ -386,6 +410,8 @@ Sets(vt) == << <<Assign("v", VLit(vt, 1))>>, <<Assign("v", NULL)>>, <<Assign("g"
 NSet == 9
 NSpell == 4      \* renderer spellings: plain / table alias / schema-qualified / star + order by on DML
 
+InsRow(vt, k) == <<10 * (k % NIds), StrV[(k % 7) + 1], VU(vt)[(k % Len(VU(vt))) + 1]>>
+
 Select(dist, sel, wh, gb, ord, lim) ==
     [kind |-> "select", distinct |-> dist, sel |-> sel, where |-> wh, group |-> gb, order |-> ord,
      off |-> lim[1], cnt |-> lim[2]]
@@ -399,10 +425,11 @@ MkQuery(fm, vt, i1, i2, i3, i4, i5, i6) ==
                           l |-> Select(FALSE, SelPlain[i1], Wheres(vt)[i3], <<>>, <<>>, <<0, -1>>),
                           r |-> Select(FALSE, SelPlain[i1], Wheres(vt)[i6], <<>>, <<>>, <<0, -1>>),
                           order |-> Orders(SelPlain[i1])[i4], off |-> Limits[i5][1], cnt |-> Limits[i5][2]]
-      [] fm = "update" -> [kind |-> "update", set |-> Sets(vt)[i1], where |-> Wheres(vt)[i3], row |-> <<0, NULL, NULL>>]
-      [] fm = "delete" -> [kind |-> "delete", set |-> <<>>, where |-> Wheres(vt)[i3], row |-> <<0, NULL, NULL>>]
+      [] fm = "update" -> [kind |-> "update", set |-> Sets(vt)[i1], where |-> Wheres(vt)[i3], ins |-> <<>>]
+      [] fm = "delete" -> [kind |-> "delete", set |-> <<>>, where |-> Wheres(vt)[i3], ins |-> <<>>]
       [] fm = "insdup" -> [kind |-> "insdup", set |-> Sets(vt)[i1], where |-> W0,
-                           row |-> <<10 * (i3 % NIds), StrV[(i3 % 7) + 1], IF vt = "varchar" THEN StrV[(i3 % 5) + 1] ELSE NumU[(i3 % 5) + 1]>>]
+                           \* one row, or (i3 > 6) two rows that may fall on two tables of one slice
+                           ins |-> IF i3 <= 6 THEN <<InsRow(vt, i3)>> ELSE <<InsRow(vt, i3), InsRow(vt, i3 + 3)>>]
 
 \* Enumerated index ranges.  For the SELECT families the WHERE clause (index 3, and index 6 of a union) is not
 \* enumerated but drawn per repetition by the sampling hash, like the table content and the configuration.
@@ -416,7 +443,7 @@ Dim(fm) ==
       [] fm = "insdup" -> <<NSet, 1, 12, 1, 1, 1>>
 
 \* Which generated queries are legal SQL with a determined meaning on the modelled schema
-ItemOK(vt, it) == ~(it.f = "sum" /\ it.c = "v" /\ vt = "varchar") /\ ~(it.f = "sum" /\ it.c = "g")
+ItemOK(vt, it) == ~(it.f = "sum" /\ it.c = "v" /\ vt \in {"varchar", "bigint"}) /\ ~(it.f = "sum" /\ it.c = "g")
 SelectOK(vt, q) ==
     /\ q.sel # <<>>
     /\ \A i \in DOMAIN q.sel : ItemOK(vt, q.sel[i])
@@ -439,7 +466,6 @@ WellFormed(vt, q) ==
 (***************************************************************************************)
 H(i, j, k) == ((((i * 7919) + (j * 1543) + (k * 389) + (Seed * 17)) % 10007) * 31) % 10007
 
-VU(vt) == IF vt = "varchar" THEN StrV ELSE NumU
 GenRows(vt, i) ==
     LET n == <<0, 1, 2, 3, 3, 4, 4, 5, 5, 6, 6, 7, 8>>[(H(i, 0, 0) % 13) + 1]
         gN == 2 + (H(i, 0, 2) % 3)
